@@ -166,8 +166,30 @@ TamperFamilies ==
   Kind = "biffle" /\ \E c \in 1..4, h \in 0..3 :
       LET j == (c + 1) \div 2 IN Give(Adv("comptamper", c, h), Set1(out, 1, j, Junk(out[1][j])), "reproved", par)
 
+\* One family per verification equation: the forger runs the honest prover and replaces, BEFORE the message is hashed
+\* into the next challenge, one commitment that occurs in exactly one verification equation - so the transcript
+\* satisfies every equation but that one:  a = 1: W_b (33)_b   2: Lambda1 (34)   3: Lambda2 (35)
+\*   4: A_b (simple-shuffle input R_b = A_b + lambda B_b)   5: C_b (S_b = C_b + lambda D_b)
+\*   6: Theta_b (b-th equation of the simple k-shuffle, b in 1..2k)
+EqIdx(a) == CASE a \in {1, 4, 5} -> Slots [] a \in {2, 3} -> {1} [] a = 6 -> 1..(2 * k)
+EqNear(b) == k <= 6 \/ b \in {1, 2, k - 1, k, 2 * k - 1, 2 * k}
+EquationFamilies ==
+  /\ Kind \in {"pair", "seq", "simple"}
+  /\ \E a \in (IF Kind = "simple" THEN {6} ELSE 1..6) : \E b \in EqIdx(a) :
+        EqNear(b) /\ Give(Adv("eqviol", a, b), out, "forged", par)
+
+\* biffle: both Or-branches simulated with self-chosen sub-challenges (no witness at all) for an unrelated output
+SimFamilies ==
+  Kind = "biffle" /\ Give(Adv("simboth", 0, 0), [q \in 1..nq |-> [j \in Slots |-> Junk(Ct(Unit(1)))]], "forged", par)
+
+\* completeness under re-use: the SAME honest prover closure is run a second time on the same shuffle result
+\* (a = 1), the sequence shuffle's getProver is asked for a second prover with another challenge vector e (a = 2)
+ReproveFamilies ==
+  \E a \in (IF Kind = "seq" THEN {1, 2} ELSE {1}) : Give(Adv("reprove", a, 0), out, prf, par)
+
 \* simple shuffle: the prover itself lies about y (there is no separate output: X, Y travel inside the proof)
-Adversary == phase = "adv" /\ (OutputFamilies \/ SeqFamilies \/ ProofFamilies \/ TamperFamilies)
+Adversary == phase = "adv" /\ (OutputFamilies \/ SeqFamilies \/ ProofFamilies \/ TamperFamilies
+                               \/ EquationFamilies \/ SimFamilies \/ ReproveFamilies)
 
 Verify ==
   /\ phase = "verify"
@@ -185,9 +207,9 @@ Total == Judged => Must \in {"acc", "rej", "free"} /\ Impl \in {"acc", "rej"}
 \* accept only what the property allows: a permutation of re-encryptions, proof and parameters untouched
 AcceptImpliesPerm == Judged /\ Impl = "acc" => IsPermAll(out) /\ ~ProofAltered /\ ~ParAltered
 Refines == Judged => (Must = "acc" => Impl = "acc") /\ (Must = "rej" => Impl = "rej")
-HonestAccepted == Judged /\ adv.f \in {"none", "honestlib"} => Must = "acc"
+HonestAccepted == Judged /\ adv.f \in {"none", "honestlib", "reprove"} => Must = "acc"
 \* no adversary family degenerates into the honest case (vacuity guard)
-FamiliesBite == Judged /\ adv.f \notin {"none", "honestlib"} => Must # "acc"
+FamiliesBite == Judged /\ adv.f \notin {"none", "honestlib", "reprove"} => Must # "acc"
 \* the classification the families were designed for
 Designed == Judged =>
   /\ (adv.f \in {"replaceX", "replaceY", "comptamper", "replace", "dup", "sum", "scal", "swapX", "kshift", "seqperm", "detach"} => ~IsPermAll(out))
